@@ -154,14 +154,22 @@ class WARCRecord(object):
     def get_http_header(self) -> Response:
         '''Return the HTTP header.
 
-        It only attempts to read the first 4 KiB of the payload.
+        It only reads the block up to and including the first empty line.
 
         Returns:
             Response, None: Returns an instance of
             :class:`.http.request.Response` or None.
         '''
+        header_lines = []
+
         with wpull.util.reset_file_offset(self.block_file):
-            data = self.block_file.read(4096)
+            for line in iter(self.block_file.readline, b''):
+                header_lines.append(line)
+
+                if line in (b'\r\n', b'\n'):
+                    break
+
+        data = b''.join(header_lines)
 
         match = re.match(br'(.*?\r?\n\r?\n)', data, re.DOTALL)
 
